@@ -271,6 +271,7 @@ func longestPrefix(s1, s2 string) int {
 
 		if s1[i] != s2[i] {
 			if state != endByte || // 不从命名参数中间分隔
+				endIndex == i || // s1 的参数刚好在此结束，s2 的参数还未结束，同样处于参数中间。
 				endIndex+1 == i { // 命名参数之后必须要有一个或以上的普通字符
 				return startIndex
 			}
